@@ -4,6 +4,10 @@ import json
 props=[json.loads(l) for l in open('properties.jsonl')]
 TRUST="Trusted base: the Go type checker/SSA builder of x/tools v0.29.0; the std functions on the allow-lists behave as documented; exported operations receive values produced by the repo's constructors."
 claimed={
+'C20':dict(technique="static analysis: taint of the probe through Contains + key-field extraction from Compare's abstract decision table; re-uses R-PREORDER",
+ text="The first clause is decided structurally: the probe is observed only through Compare or fields on which equal-comparing versions necessarily agree (computed from the decision table), or through Compare's own element comparator; with C02's operator table and Compare being a total preorder (R-PREORDER, re-run), comparator-only conjunctions are convex. Sufficient-style rule; named exceptions pypi '===' and gem '~>'.",
+ note=TRUST+" Not decided: convexity of the field-equality shorthands (cargo/conan/gem/composer caret, tilde, pessimistic).",
+ design="DESIGN.md 5 (C20)"),
 'C16':dict(technique="static analysis: value-flow rules on SSA for the VERS normalisation pipeline",
  text="Invariance under reordering, spacing and repetition comes from one mechanism; the rules decide that every consumer of constraints is fed through it: raw list only to the normaliser, whitespace removed before any use, de-duplication keyed on the cleaned text, sort before extraction with a version-only comparator. Given C01 for the scheme, the normalised list is unique for pairwise non-equivalent versions.",
  note=TRUST+" Not decided: invariance of which error is reported first; relies on C01 for the scheme's order.",
